@@ -8,7 +8,7 @@
          one the harness predicted (and recorded in the evidence). *)
 From Coq Require Import List ZArith NArith QArith Floats Bool.
 From Sdfx Require Import Num.Ops Num.FInst Num.QInst Num.GoMath Geo.Vec Geo.Box Geo.Mat Sdf.Union2 Sdf.Shape
-  Sdf.Poly Sdf.Reify Sdf.ReifyCheck Sdf.ReifyBuild.
+  Sdf.Poly Sdf.Prim2X Sdf.Reify Sdf.ReifyCheck Sdf.ReifyBuild.
 Import ListNotations.
 
 (* m * 2^e as an exact rational *)
@@ -41,6 +41,12 @@ Definition qMinRound (k : Q) : MinK QOps := MinRound k.
 Definition qMinChamfer (k : Q) : MinK QOps := MinChamfer k.
 Definition qMaxDef : MaxK QOps := MaxDef.
 Definition qMaxPoly (k : Q) : MaxK QOps := MaxPoly k.
+
+(* the primitives of Sdf/Prim2X.v at Q *)
+Definition qFlatFlankCam (d b n : Q) : QS2 := RPrim2 (PFlatFlankCam (O := QOps) d b n).
+Definition qThreeArcCam (d b n f : Q) : QS2 := RPrim2 (PThreeArcCam (O := QOps) d b n f).
+Definition qFlange1 (d c s : Q) : QS2 := RPrim2 (PFlange1 (O := QOps) d c s).
+Definition qArcSpiral (a k s e d : Q) : QS2 := RPrim2 (PArcSpiral (O := QOps) a k s e d).
 
 Inductive rtree := T2 (t : QS2) | T3 (t : QS3).
 
